@@ -201,7 +201,7 @@ impl Stitch {
                         trace!(?band_id, "band is closed; stitched iteration complete");
                         State::Done
                     } else if let Some(prev_band_id) =
-                        previous_existing_band(&self.archive, *band_id).await
+                        previous_existing_band(&self.archive, *band_id, &self.monitor).await
                     {
                         trace!(?band_id, ?prev_band_id, "moving back to previous band");
                         State::BeforeBand(prev_band_id)
@@ -218,7 +218,11 @@ impl Stitch {
     }
 }
 
-async fn previous_existing_band(archive: &Archive, mut band_id: BandId) -> Option<BandId> {
+async fn previous_existing_band(
+    archive: &Archive,
+    mut band_id: BandId,
+    monitor: &Arc<dyn Monitor>,
+) -> Option<BandId> {
     loop {
         // TODO: It might be faster to list the present bands, maybe when
         // constructing Stitch, and calculate from that, rather than walking
@@ -227,6 +231,16 @@ async fn previous_existing_band(archive: &Archive, mut band_id: BandId) -> Optio
             band_id = prev_band_id;
             if archive.band_exists(band_id).await.unwrap_or(false) {
                 return Some(band_id);
+            }
+            // Index hunks are only written after the head, so a band that holds some but has no
+            // head has lost it: say so, rather than silently passing over the entries it held.
+            if archive
+                .transport()
+                .is_file(&format!("{band_id}/i/00000/000000000"))
+                .await
+                .unwrap_or(false)
+            {
+                monitor.error(Error::BandHeadMissing { band_id });
             }
         } else {
             return None;
